@@ -4,6 +4,21 @@ from spec import trim as ST
 
 def calc_trim(m, meta):
     from term_image.widget import UrwidImageCanvas
+    if "size" not in m:
+        # no model: every canvas axis up to 9 cells (padding | image | padding) and every window inside it
+        n = 0
+        for size in range(1, 10):
+            for img in range(1, size + 1):
+                for p1 in range(0, size - img + 1):
+                    p2 = size - img - p1
+                    for t1 in range(0, size):
+                        for t2 in range(0, size - t1):
+                            a = [size, img, t1, p1, t2, p2]
+                            n += 1
+                            got, exp = tuple(UrwidImageCanvas._ti_calc_trim(*a)), tuple(ST.spec_calc_trim(*a))
+                            if got != exp:
+                                return {"reproduced": True, "input": a, "observed": got, "expected": exp}
+        return {"reproduced": False, "input": f"all {n} (size, image, trims, paddings) with size <= 9", "observed": []}
     a = [ival(m, k, 0) for k in ("size", "image_size", "trim_side1", "pad_side1", "trim_side2", "pad_side2")]
     got = tuple(UrwidImageCanvas._ti_calc_trim(*a))
     exp = tuple(ST.spec_calc_trim(*a))
